@@ -103,7 +103,7 @@ def expected_events(d, lenient_lookalikes=False):
                     toks.append(c if c is not None else ("?", x))
                 else:
                     raise Unrepresentable(f"{typ}.{k} = {x!r}")
-            out.append(("attr", k, toks))
+            out.append(("attr", k, toks, typ))
         elif e[0] == "pair":
             out.append(("pair", ("Q", e[1]), ("Q", e[2])))
         elif e[0] == "config":
@@ -133,6 +133,11 @@ def same_event(got, exp):
                 continue
             if c2 == "N":
                 try:
+                    if c1 == "Q" and exp[1] and _string_typed(exp, v2):
+                        # a number at a string-typed keyword may be written as the equal quoted string (NAME 7 -> "7")
+                        if v1 != str(v2):
+                            return False
+                        continue
                     if c1 != "N" or float(v1) != float(v2):
                         return False
                 except ValueError:
@@ -155,6 +160,12 @@ def same_event(got, exp):
     if k == "numpair":
         return (got[1], got[2]) == (exp[1], exp[2])
     return False
+
+
+def _string_typed(exp_event, value):
+    typ = exp_event[3] if len(exp_event) > 3 else None
+    slot = slot_of(typ, exp_event[1]) if typ else None
+    return slot is not None and any(a.shape in ("string", "strpat") for a in slot.alts)
 
 
 def strip_ev(ev):
